@@ -660,6 +660,80 @@ def k5(rep, F):
     return r
 
 
+ORDER_CALLS = ("sort_by_key", "sort_by", "sort_unstable_by_key", "sort_unstable_by", "sort_by_cached_key",
+               "min_by_key", "min_by")
+TRACKER_TY = "parser::swift_parser::FieldConsumptionTracker"
+
+
+def _touches_tracker(n, lets, depth=0):
+    """the expression reads the consumed set: the `consumed_indices` field, a method of the tracker, or a local whose
+    initialiser does"""
+    for x in walk(n):
+        if x.get("k") == "field" and x.get("name") == "consumed_indices":
+            return True
+        if x.get("k") in ("mcall", "call") and TRACKER_TY + "::" in (x.get("f") or ""):
+            return True
+        if x.get("k") == "local" and depth < 3 and x.get("id") in lets and lets[x["id"]] is not n and \
+                _touches_tracker(lets[x["id"]], lets, depth + 1):
+            return True
+    return False
+
+
+def k6(rep, F):
+    r = rep.rule("K6", "option-letter candidates of one base tag are tried in the order of their first *unconsumed* "
+                       "occurrence: the key of every ordering call over the (tag, occurrences) candidates in the "
+                       "sequential lookup consults the consumed set (or orders occurrences already filtered by it)",
+                 floor=1)
+    b = F.body_by_path.get("parser::swift_parser::find_field_with_variant_sequential_constrained")
+    if b is None:
+        rep.fail_closed("K6: parser::swift_parser::find_field_with_variant_sequential_constrained not found")
+        return r
+    lets = {}
+    for n in walk(b["body"]):
+        if n.get("k") == "let" and isinstance(n.get("pat"), dict) and n["pat"].get("k") == "bind" and n.get("init"):
+            lets[n["pat"]["id"]] = n["init"]
+    calls = [n for n in walk(b["body"]) if n.get("k") == "mcall" and n.get("m") in ORDER_CALLS and
+             "Vec<(std::string::String, usize)>" in " ".join(n.get("ga") or []) + (n.get("rt") or "")]
+    if not calls:
+        rep.notes.append("K6: no ordering call over the option-letter candidates found in %s: how they are ordered "
+                         "is not decided by this rule" % b["path"])
+        r["instances"] += 1       # the function itself was examined
+        return r
+    for n in calls:
+        r["instances"] += 1
+        clos = [a for a in (n.get("args") or []) if isinstance(a, dict) and a.get("k") == "closure"]
+        if not clos:
+            rep.notes.append("K6: %s line %s orders the candidates by a named function: undecided" % (b["path"], n.get("ln")))
+            continue
+        if _touches_tracker(clos[0].get("body"), lets):
+            continue
+        # occurrences filtered by the consumed set before they are ordered
+        recv = peel(n.get("recv")) if n.get("recv") else None
+        rid = recv.get("id") if isinstance(recv, dict) and recv.get("k") == "local" else None
+        pre = False
+        for x in walk(b["body"]):
+            if x.get("k") == "mcall" and x.get("m") in ("filter", "retain", "filter_map", "retain_mut") and \
+                    (x.get("ln") or 0) < (n.get("ln") or 0) and \
+                    any(isinstance(a, dict) and a.get("k") == "closure" and _touches_tracker(a.get("body"), lets)
+                        for a in (x.get("args") or [])):
+                root = x
+                while isinstance(root, dict) and root.get("k") == "mcall":
+                    root = root.get("recv")
+                root = peel(root) if isinstance(root, dict) else root
+                in_init = rid is not None and rid in lets and any(y is x for y in walk(lets[rid]))
+                on_recv = isinstance(root, dict) and root.get("k") == "local" and root.get("id") == rid
+                if in_init or on_recv:
+                    pre = True
+        if pre:
+            continue
+        rep.add(Finding("K6", b["path"], "order-key:%s" % n.get("m"),
+                        "%s orders the option-letter candidates (line %s) by a key that never consults the consumed "
+                        "set: once an occurrence of one letter is consumed, a later occurrence of that letter is "
+                        "still ranked by the consumed one, so interleaved letters of one base tag (52A,52D,52A) are "
+                        "handed out out of message order" % (b["path"], n.get("ln")), b["file"], n.get("ln")))
+    return r
+
+
 def _param_name(b, lid):
     for n in walk(b["body"]):
         if n.get("k") == "local" and n.get("id") == lid:
